@@ -131,8 +131,10 @@ int sx127x_shadow_spi_read_registers(int reg, shadow_spi_device_t *spi_device, s
     return code;
   }
 
-  const uint8_t *pointer = ((uint8_t *) result) + (sizeof(uint32_t) - data_length);
-  memcpy(spi_device->shadow_registers + reg, pointer, data_length);
+  // the result holds the registers most significant byte first, independent of the host byte order
+  for (size_t i = 0; i < data_length; i++) {
+    spi_device->shadow_registers[reg + i] = (uint8_t) (*result >> (8 * (data_length - 1 - i)));
+  }
   memset(spi_device->shadow_registers_sync + reg, SHADOW_CACHED, data_length);
   return code;
 #endif
